@@ -604,8 +604,9 @@ def run(ctx):
     t0 = time.time()
     n_eth = part_eth_abi(ctx, wrapped)
     n_reason = part_reasons(ctx, C.quick_configs() if quick else cfgs)
-    n_reason += part_literals(ctx, pairs, cfgs, 2 if quick else 3)
-    n_reason += part_widening(ctx, C.quick_configs() if quick else cfgs)
+    n_reason += part_literals(ctx, pairs, cfgs, 1 if quick else 3)
+    qc = C.quick_configs()
+    n_reason += part_widening(ctx, [qc[i] for i in (0, 1, 3, 4, 6, 9)] if quick else cfgs)
     ctx.log(f"reasons: {time.time() - t0:.1f}s")
     zp_ok, zp = part_zero_pad_template(ctx)
     struct_bad = part_encoder_structure(ctx)
